@@ -18,7 +18,7 @@ FUNCTIONS = ["wannierberri.fourier.fft.FFT_R_to_k.__init__/__call__/transform/ex
              "wannierberri.data_K.data_K_R.Data_K_R.__init__/HH_K/Xbar('Ham',der)/_R_to_k_H/get_R_mat", "wannierberri.data_K.data_K.Data_K.__init__/_rotate/kpoints_all",
              "wannierberri.grid.grid.GridAbstract.points_FFT", "wannierberri.utility.cached_einsum"]
 BOUNDS = dict(quick=dict(nb="1..2", R_sets="7 sets of 5..27 R-vectors, all larger than the FFT box (folding), one not inversion-symmetric", NKFFT="(1,1,1) (2,1,2) (2,2,2) (3,1,1) (2,3,1) (4,1,1) (1,1,4)",
-                         dK="4 concrete shifts incl. 0 and non-dyadic doubles", der="0..2 (concrete triclinic lattice+centres), 1 (symbolic lattice, centres)", data="symbolic complex X(R), |X|<=1",
+                         dK="4 concrete shifts incl. 0 and non-dyadic doubles", der="0..2 (concrete triclinic lattice+centres), 3 and vector-valued der=2 for nb=1 on the box (2,1,1), 1 (symbolic lattice, centres)", data="symbolic complex X(R), |X|<=1",
                          hermitian_flag="both", fftlib="fftw(stub) numpy(stub) slow k-list"),
               thorough=dict(nb="1..3", R_sets="as quick", NKFFT="as quick + (4,2,2) (3,2,2)", dK="6 concrete shifts", der="0..3 (concrete lattice), 1..2 (symbolic lattice, centres)",
                             data="symbolic complex X(R), |X|<=1", hermitian_flag="both", fftlib="fftw(stub) numpy(stub) slow k-list"))
@@ -287,6 +287,10 @@ def cases(tier, seed):
                 continue
             add("backends", rset=rset, NK=NK, dK=DKS[idk], nb=nb, der=der, herm_data=rset != "asym6", symlat=False)
     add("backends", rset="x7", NK=(2, 1, 1), dK=DKS[0], nb=2, der=1, herm_data=True, symlat=False, trailing=(3,))
+    if q:   # third derivative / three Cartesian indices (array rank 8) in the quick tier too: smallest folding box, one band
+        add("backends", rset="x7", NK=(2, 1, 1), dK=DKS[1], nb=1, der=3, herm_data=True, symlat=False)
+        add("backends", rset="asym6", NK=(2, 1, 1), dK=DKS[0], nb=1, der=2, herm_data=False, symlat=False, trailing=(3,))
+        add("dataK", rset="x7", NK=(2, 1, 1), dK=DKS[3], nb=1, dermax=3, symlat=False)
     # symbolic lattice and centres
     for der in ((1,) if q else (1, 2)):
         add("backends", rset="x7" if der == 2 else "xz15", NK=(2, 1, 1) if der == 2 else (2, 1, 2), dK=DKS[0], nb=2, der=der, herm_data=True, symlat=True)
